@@ -195,7 +195,7 @@ class NoCommon(Component):
     rule = ">=1 token-disjoint pair (not both empty) and >=1 token-sharing pair"
 
     def examples(self, tier):
-        return 120 if tier == "quick" else 1200
+        return 250 if tier == "quick" else 1200
 
     def strategy(self, tier):
         return nocommon_case(tier)
@@ -321,7 +321,7 @@ class Refine(Component):
     rule = "PositionFilter result strictly smaller than PrefixFilter's or SizeFilter's"
 
     def examples(self, tier):
-        return 120 if tier == "quick" else 1200
+        return 250 if tier == "quick" else 1200
 
     def strategy(self, tier):
         return refine_case(tier)
